@@ -2,6 +2,7 @@
 # Inductive step: one operation from an arbitrary state satisfying the representation invariant.
 import os, re
 import vf, e1
+import c17hist
 
 KLEN = 2
 
@@ -16,23 +17,62 @@ def step_harnesses(cap, tier, real=False):
     two = base + ["get_entry.0:%d" % (cap + 1), "get_or_insert_entry.0:%d" % (cap + 1),
                   "rehash.0:%d" % (cap + 1), "rehash.1:3", "rehash.2:%d" % (cap + 1)]
     to = 900 if tier == "thorough" else 300
+    M = "memcmp:stub_memcmp_keys"
     hs = [
-        e1.H("h_get", "step/get/" + k, unwind=U, unwindset=one, defines=d, timeout=to),
-        e1.H("h_delete", "step/delete/" + k, unwind=U, unwindset=one, defines=d, timeout=to),
+        e1.H("h_memcmp_contract", "lemma/memcmp-is-EQ/" + k, unwind=U, unwindset=base, defines=d, timeout=to),
+        e1.H("h_fnv_congruence", "lemma/fnv-congruence/" + k, unwind=U, unwindset=base, defines=d, timeout=to),
+        e1.H("h_get", "step/get/" + k, unwind=U, unwindset=one, defines=d, timeout=to, replace_calls=(M,)),
+        e1.H("h_delete", "step/delete/" + k, unwind=U, unwindset=one, defines=d, timeout=to, replace_calls=(M,)),
         e1.H("h_put", "step/put/" + k, unwind=U, unwindset=one, defines=d, timeout=to,
-             replace_calls=("rehash:stub_rehash_never",)),
+             replace_calls=(M, "rehash:stub_rehash_never")),
         e1.H("h_put_trigger", "step/put-at-trigger/" + k, unwind=U, unwindset=one, defines=d, timeout=to,
-             replace_calls=("rehash:stub_rehash_contract",), native=False),
+             replace_calls=(M, "rehash:stub_rehash_contract"), native=False),
         e1.H("h_rehash_modular", "rehash/modular/" + k, unwind=U, unwindset=two, defines=d, timeout=to,
              replace_calls=("hashmap_put2:stub_put_contract",), native=False),
     ]
     if real:
         rec = ["rehash:0", "hashmap_put2:1", "get_or_insert_entry:1"]
         hs += [
-            e1.H("h_rehash_real", "rehash/real/" + k, unwind=U, unwindset=two + rec, defines=d, timeout=1500),
-            e1.H("h_put_real", "step/put-real-rehash/" + k, unwind=U, unwindset=two + rec, defines=d, timeout=1500),
+            e1.H("h_rehash_real", "rehash/real/" + k, unwind=U, unwindset=two + rec, defines=d, timeout=1500,
+                 replace_calls=(M,)),
+            e1.H("h_put_real", "step/put-real-rehash/" + k, unwind=U, unwindset=two + rec, defines=d, timeout=1500,
+                 replace_calls=(M,)),
         ]
     return hs
+
+
+def history_replays(chk):
+    """For a violated step obligation: re-derive the counterexample as a history through the public API
+    from an EMPTY map (real initial capacity 16) and run it natively; when it reproduces, that history
+    becomes the replay file (the harness-level replay stays next to it)."""
+    for o in chk.obl:
+        m = re.match(r"step/(put|get|delete)/cap\d+$", o["key"])
+        if o["status"] != "violated" or not m or not o.get("replay"):
+            continue
+        try:
+            text = open(o["replay"]).read()
+            src, desc = c17hist.build_history(text, {"put": "put", "get": "get", "delete": "del"}[m.group(1)])
+            if src is None:
+                o["detail"] += " | no public-API history: " + desc
+                continue
+            path = chk.write_replay(o["key"] + "-history", src)
+            exe = os.path.join(vf.subdir("hist"), "h.exe")
+            rc, out, err, _ = vf.run(["gcc", "-w", "-O0", "-I", vf.REPO, "-o", exe, path], timeout=120)
+            if rc != 0:
+                o["detail"] += " | history replay did not build: " + err[-200:]
+                continue
+            rc, out, err, _ = vf.run([exe], timeout=60)
+            last = [l for l in out.splitlines() if "VIOLATION" in l]
+            if rc == 1 and last:
+                o["harness_replay"] = o["replay"]
+                o["replay"] = path
+                o["detail"] = "public-API history from an EMPTY map reproduces it: %s => %s | %s" % (
+                    desc, last[0], o["detail"])
+                chk.extra["validated"] = chk.extra.get("validated", 0) + 1
+            else:
+                o["detail"] += " | (state-level replay only; derived public-API history did not expose it)"
+        except Exception as ex:  # replay generation is best effort; the harness-level replay stands
+            o["detail"] += " | history replay failed: %r" % (ex,)
 
 
 def main(tier, only=None):
@@ -68,6 +108,7 @@ def main(tier, only=None):
         if not hs:
             continue
         e1.run_set(chk, "c17/step.c", hs, workers=int(os.environ.get("VERIF_WORKERS", "8")))
+    history_replays(chk)
     if os.environ.get("VERIF_VERBOSE"):
         for o in chk.obl:
             print("  %-40s %-12s %6.1fs  %s" % (o["key"], o["status"], o["secs"], o["detail"][:100]))
